@@ -566,6 +566,16 @@ class AstMixin:
 
     def binop(self, op: type, a: Any, b: Any) -> Any:
         fn, dn, rdn = _BINOPS[op]
+        if getattr(type(a), "pyvc_model", False) or getattr(type(b), "pyvc_model", False):
+            # assumed contracts of foreign (stdlib) types: dispatched before Python's own operator protocol
+            r = NotImplemented
+            if getattr(type(a), "pyvc_model", False):
+                r = a.pyvc_binop(self, dn, b, False)
+            if r is NotImplemented and getattr(type(b), "pyvc_model", False):
+                r = b.pyvc_binop(self, dn, a, True)
+            if r is NotImplemented:
+                self.raise_(TypeError, f"unsupported operand types for {dn}")
+            return r
         a_obj = isinstance(a, SObj) or self.is_repo_object(a)
         b_obj = isinstance(b, SObj) or self.is_repo_object(b)
         if a_obj or b_obj:
@@ -788,6 +798,19 @@ class AstMixin:
         if op is ast.NotIn:
             return sym.Not(self.contains(b, a))
         fn, dn, rdn = _CMPOPS[op]
+        if getattr(type(a), "pyvc_model", False) or getattr(type(b), "pyvc_model", False):
+            r = NotImplemented
+            if getattr(type(a), "pyvc_model", False):
+                r = a.pyvc_compare(self, dn, b, False)
+            if r is NotImplemented and getattr(type(b), "pyvc_model", False):
+                r = b.pyvc_compare(self, dn, a, True)
+            if r is NotImplemented:
+                if op is ast.Eq:
+                    return a is b
+                if op is ast.NotEq:
+                    return a is not b
+                self.raise_(TypeError, f"'{dn}' not supported between instances")
+            return r
         a_obj = isinstance(a, SObj) or self.is_repo_object(a)
         b_obj = isinstance(b, SObj) or self.is_repo_object(b)
         if a_obj or b_obj:
